@@ -447,6 +447,9 @@ pub enum TyDiagnosticKind {
     DiscriminantUsedAlready {
         value: u64,
     },
+    DiscriminantTooBig {
+        value: u64,
+    },
     ExternGlobalMissingTy,
     ExternVarargs,
     DeclTypeHasNoDefault {
